@@ -1,16 +1,16 @@
 """C07 — arithmetic evaluates as bash's wrapping 64-bit C-style integer arithmetic."""
 import os, random, re, subprocess, tempfile
 from vlib import core
-from props import arith_oracle as O
+from props import c07_oracle as O
 
 PID = "C07"
 ENTRIES = {"c07_parse": ("Arith.Entry", "entry_c07_parse"), "c07_eval": ("Arith.Entry", "entry_c07_eval")}
 TRUSTED = [
     "modelled, not verified: brush-parser/src/arithmetic.rs (grammar; the precedence!{} block and the lexical "
-    "classes are regenerated into gen/ArithTable.v, the algorithm rust-peg 0.8.6 generates for precedence!{} is "
+    "classes are regenerated into gen/C07ArithTable.v, the algorithm rust-peg 0.8.6 generates for precedence!{} is "
     "modelled by Arith/PegPrec.v), brush-core/src/arithmetic.rs (eval_expr_impl and helpers) over scalar variables; "
     "array element storage is outside the model (EArray)",
-    "spec oracle: props/arith_oracle.py (bash expr.c as recursive descent over Python integers), validated against "
+    "spec oracle: props/c07_oracle.py (bash expr.c as recursive descent over Python integers), validated against "
     "/usr/bin/bash 5.2.15 in the thorough tier; bash itself confirms every candidate violation",
     "word expansion preceding $(( )) / (( )) is not modelled: generated expressions contain no $, quotes, backslashes or braces",
 ]
@@ -330,6 +330,28 @@ def eval_cases(ctx):
     cases.append(("1", "q = 3, q + 1", {}, "nounset"))
     cases.append(("1", "q++", {}, "nounset"))
     cases.append(("1", "q += 1", {}, "nounset"))
+    # malformed and edge strings (no array syntax: element storage is outside the model)
+    fixed = ["", " ", "   ", "\t\n", "--4", "++4", "- -4", "--4 + ++4", "1--x", "1++x", "(1)--x", "1 --x", "1 + a = 3",
+             "1 ? 2 : a = 3", "-a = 3", "!a = 3", "~a += 3", "1 + a += 3", "2 * a = b = 3", "(a) = 3", "a = 3", "x**=2",
+             "1 < = 2", "x--x", "x+++2", "x---2", "x++ +2", "a b", "1 2", "1 +", "+", "()", "1 ? 2", "1 ? : 3", ",", "a =",
+             "= 1", "08", "0x", "0X", "0x + 1", "x", "1 ? 2 , 3 : 4", "1 ? 2 : 3 , 4", "a ? b : c = d", "1 ||", "&& 1",
+             "1 ** ", "**", "1 *** 2", "a+++b", "a---b", "a++b", "a--b", "a- -b", "a+ +b", "a+ ++b", "a- --b", "a++ + ++b",
+             "--a--", "++a++", "- --a", "+ ++a", "-- a", "++ a", "a ++", "a --", "a++++", "!--a", "~++a", "1 -- x", "1 - - x",
+             "1 ? a = 2 : 3", "1 ? 2 : (a = 3)", "0 ? a = 2 : (b = 3)", "a = 1 ? 2 : 3", "a ? b : c ? d : e", "1<2<3", "1\r+\r2"]
+    for s in fixed:
+        for env in ({}, {"x": "5", "a": "2", "b": "7"}):
+            cases.append(("0", s, dict(env), "fixed"))
+    nm = 1500 if ctx.quick else 25000
+    k = 0
+    while k < nm:
+        e = gen_tree(rng, rng.choice([1, 2, 3]))
+        s = render(e, rng)
+        for _ in range(rng.choice([1, 1, 2])):
+            s = mutate(s, rng)
+        if "[" in s or "]" in s:
+            continue
+        k += 1
+        cases.append(("0", s, gen_env(rng) if rng.random() < 0.5 else {}, "mutated"))
     return cases
 
 
@@ -358,7 +380,7 @@ ERRMAP = {"syntax": "parse", "assign-nonvar": "parse", "number": "parse", "div0"
 SYNTAX_KINDS = ("syntax", "assign-nonvar", "number")
 KF_FLAGS = [("KF-C07-literal-range", "lit_range"), ("KF-C07-doubled-sign", "no_sign_split"),
             ("KF-C07-blank-expression", "blank_err"), ("KF-C07-assign-in-operand", "loose_assign"),
-            ("KF-C07-incr-after-operand", "loose_incr")]
+            ("KF-C07-incr-after-operand", "loose_incr"), ("KF-C07-cr-whitespace", "cr_ws")]
 
 
 def expected_fields(res, env_after, names, top_syntax):
@@ -529,7 +551,7 @@ def run(ctx):
     # every unknown candidate must also differ from real bash (else the oracle is wrong, not the code)
     specv, spec_bash = confirm_with_bash(ctx, specv, notes)
     # ---- (4) the other delivery paths: $(( )), (( )), let  (expected from the model's API-path result)
-    sh_stats = shell_paths(ctx, ecases, emodel, mism)
+    sh_stats = shell_paths(ctx, ecases, emodel, mism, specv)
     # ---- (5) thorough: brush vs bash directly on all eval cases
     if not ctx.quick:
         spec_bash.update(bash_sweep(ctx, ecases, ecode, specv))
@@ -639,18 +661,27 @@ def bash_sweep(ctx, ecases, ecode, specv):
     return stats
 
 
-def shell_paths(ctx, ecases, emodel, mism):
+def heredoc_class(mode, expr):
+    """class of KF-C07-arith-command-heredoc: a `(( ))` command whose expression has an inner `))` and a later `<<`"""
+    return mode == "cmd" and re.search(r"\)\).*<<", expr, flags=re.S) is not None
+
+
+def shell_paths(ctx, ecases, emodel, mism, specv):
     """the same expressions through `echo $(( ))`, `(( ))` and `let` in an in-process shell"""
     rng = ctx.rng
     ok_chars = re.compile(r"^[A-Za-z0-9_ \t\n+\-*/%<>=!&|^~?:,()#@]*$")
     pool = [i for i, c in enumerate(ecases) if ok_chars.match(c[1]) and all(ok_chars.match(v) for v in c[2].values())
-            and c[0] == "0" and c[1].strip() and c[3] != "recursion-limit"]
+            and c[0] == "0" and c[1].strip() and c[3] not in ("recursion-limit", "mutated", "fixed")]
     pick = rng.sample(pool, min(len(pool), 450 if ctx.quick else 6000))
+    # fixed probe (witness of KF-C07-arith-command-heredoc), evaluated by the model like any other case
+    ecases = list(ecases) + [("0", "((t)) + (3<<b)", {"b": "2"}, "fixed-shell")]
+    emodel = list(emodel) + ctx.model("c07_eval", [enc_eval(ecases[-1])])
+    pick.append(len(ecases) - 1)
     scripts, meta = [], []
     for i in pick:
-        nu, s, env, _ = ecases[i]
+        nu, s, env, kind = ecases[i]
         names = obs_names(env)
-        mode = rng.choice(["dollar", "cmd", "let"])
+        mode = "cmd" if kind == "fixed-shell" else rng.choice(["dollar", "cmd", "let"])
         pre = "".join("%s=%s\n" % (n, shquote(v)) for n, v in sorted(env.items()))
         if mode == "dollar":
             body = "echo R=$(( %s ))\necho S=$?\n" % s
@@ -663,13 +694,20 @@ def shell_paths(ctx, ecases, emodel, mism):
         meta.append((i, mode))
     outs = ctx.impl("sh", scripts)
     stats = {"cases": len(scripts), "agree": 0}
-    for (i, mode), line in zip(meta, outs):
+    for (i, mode), line, script in zip(meta, outs, scripts):
         mf = core.dec_line(emodel[i])
         parts = line.split(" ")
         if len(parts) < 3 or line.startswith("PANIC"):
             mism.append({"what": "shell-path " + mode, "expr": ecases[i][1], "env": ecases[i][2], "code": line[:300], "model": mf})
             continue
         stdout = core.unhx(parts[1]).decode("utf-8", "replace")
+        stderr = core.unhx(parts[2]).decode("utf-8", "replace")
+        if heredoc_class(mode, ecases[i][1]) and "here document" in stderr and mf[0] == "ok":
+            specv.append({"input": {"script": script[1]},
+                          "why": "the (( )) command is not parsed: %s; expected value %s" % (stderr.strip()[-160:], mf[1]),
+                          "known": "KF-C07-arith-command-heredoc"})
+            stats["known_heredoc"] = stats.get("known_heredoc", 0) + 1
+            continue
         mR = re.search(r"^R=(.*)$", stdout, flags=re.M)
         mS = re.search(r"^S=(\d+)$", stdout, flags=re.M)
         mV = re.search(r"^V=(.*)\n\Z", stdout, flags=re.M | re.S)
